@@ -701,20 +701,38 @@ def run_impl(inp):
 
 # ------------------------------------------------------------------ the property on the implementation
 
+F9_SIGNATURE = "asyncio adapter, unflushed data: cancelled close keeps the fd, second close waits"
+
+
+def _has_backlog_adapter(tr):
+    def walk(b):
+        if b[0] == 0:
+            return len(b) > 3 and b[3] == 2
+        return walk(b[1]) or walk(b[2])
+    return walk(tr[-1])
+
+
 def oracle(inp):
+    """C14 on the implementation: once the close has started every leaf is closing AND its descriptor has been
+    released when the close is over (returned, failed, timed out or cancelled), and a second close consumes no
+    suspension point."""
     path, tr, lock, labels, second = inp[:5]
     out = run_case(inp[:5], cancel_at=inp[5]) if len(inp) > 5 else run_case(inp)
     res, flags, outer, _api, used, snd = out[:6]
+    fds = out[6] if len(out) > 6 else flags
     want = leaves_of(tr[-1])
     if path == 2 and res == 0:
         return None      # the handshake succeeded: nothing to close
+    what = {0: "transport.aclose", 1: "aclose_forcefully", 2: "tls wrap failure", 3: "endpoint.aclose",
+            4: "client aclose", 5: "server-side client aclose", 6: "client task teardown",
+            7: "client task teardown"}[path]
     for i in want:
         if not flags[i]:
-            what = {0: "transport.aclose", 1: "aclose_forcefully", 2: "tls wrap failure", 3: "endpoint.aclose",
-                    4: "client aclose", 5: "server-side client aclose", 6: "client task teardown",
-                    7: "client task teardown"}[path]
             where = "cancel at send-lock acquisition" if lock and 2 in labels[:1] else f"labels {labels[:used]}"
             return f"{what}, {where}: leaf {i} left open (result {res})"
+    for i in want:
+        if not fds[i]:
+            return f"{what}, labels {labels[:used]}: descriptor of leaf {i} still open after the close (result {res})"
     if snd and not lock and snd[1] != 0:
         return f"second close: {snd[1]} suspension points on an already closed transport"
     return None
@@ -727,7 +745,20 @@ def signature(inp, failure):
             return "client aclose, cancel at send-lock acquisition"
         if path == 5:
             return "server-side client aclose, cancel at send-lock acquisition while a send holds the guard"
+    if _has_backlog_adapter(tr) and not lock and ("descriptor of leaf" in failure or failure.startswith("second close")):
+        # only the adapter WITH unflushed data; the same symptom on any other leaf is a different failure
+        bad = failure.split("leaf ")[1].split(" ")[0] if "descriptor of leaf" in failure else None
+        if bad is None or _leaf_is_backlog(tr, int(bad)):
+            return F9_SIGNATURE
     return failure
+
+
+def _leaf_is_backlog(tr, idx):
+    def walk(b):
+        if b[0] == 0:
+            return b[1] == idx and len(b) > 3 and b[3] == 2
+        return walk(b[1]) or walk(b[2])
+    return walk(tr[-1])
 
 
 def shrink(inp):
